@@ -42,6 +42,14 @@ func (p *NegotiationParams) Validate() error {
 		return errors.Errorf("unknown encoding type %q", p.Encoding)
 	}
 
+	// the ranges hold whether or not a compression type is named (CompressConfig uses the level either way)
+	if p.CompressLevel != nil && (*p.CompressLevel < 0 || *p.CompressLevel > 9) {
+		return errors.Errorf("unknown compress level %d", *p.CompressLevel)
+	}
+	if p.CompressWindowBits != nil && (*p.CompressWindowBits < 0 || *p.CompressWindowBits > 32) {
+		return errors.Errorf("invalid compress window bits %d", *p.CompressWindowBits)
+	}
+
 	switch p.Compress {
 	case "":
 		// ok
